@@ -9,7 +9,8 @@ un-closed and must have delivered exactly items[0:cursor], each once, in order.
 
 import gc
 
-from ..actors import World, make_async_source, make_async_fn, FnPlan, ident
+from ..actors import World, make_async_source, make_async_fn, make_ref_fn, make_ref_source, FnPlan, ident
+from ..tools import TOOLS, AGGS
 from ..loop import PAUSE
 from ..runner import Outcome
 from ..tools import draw_cfg, Gen, lib
@@ -34,46 +35,36 @@ ASSUMPTIONS = [
     "islice(None), batched(1), takewhile(true), dropwhile(false), tee(1), merge, zip_longest, cycle, filterfalse)",
     "gc is run at fixed points; finalisers of abandoned generators run as simulator tasks before the next op",
 ]
-PROBES = ("closed_directly", "closed_via_iter", "closed_by_tool", "closed_by_gc", "asend_used",
+PROBES = ("closed_directly", "closed_via_iter", "closed_by_tool", "closed_by_gc", "asend_used", "athrow_on_closed_handle",
           "underlying_used_after_close", "tool_abandoned", "reborrowed")
 
-TOOLS_1TO1 = ("map", "filter", "enumerate", "zip", "chain", "islice", "batched", "takewhile", "dropwhile",
-              "tee", "merge", "zip_longest", "cycle", "filterfalse")
-CLOSES_UNSTARTED = ("chain", "tee")
+TOOL_NAMES = ("zip", "map", "filter", "filterfalse", "enumerate", "accumulate", "batched", "chain", "compress",
+              "cycle", "dropwhile", "takewhile", "islice", "pairwise", "zip_longest", "tee", "groupby")
+AGG_NAMES = ("all", "any", "sum", "min", "max", "list", "tuple", "set", "sorted", "reduce", "nlargest", "nsmallest")
+CLOSES_UNSTARTED = ("chain",)
 
 
-def build_tool(L, name, b, fn_true, fn_false, fn_comb):
-    if name == "map":
-        return L.map(fn_comb, b)
-    if name == "filter":
-        return L.filter(None, b)
-    if name == "filterfalse":
-        return L.filterfalse(fn_false, b)
-    if name == "enumerate":
-        return L.enumerate(b)
-    if name == "zip":
-        return L.zip(b)
-    if name == "chain":
-        return L.chain(b)
-    if name == "islice":
-        return L.islice(b, None)
-    if name == "batched":
-        return L.batched(b, 1)
-    if name == "takewhile":
-        return L.takewhile(fn_true, b)
-    if name == "dropwhile":
-        return L.dropwhile(fn_false, b)
-    if name == "tee":
-        return L.tee(b, 1)
-    if name == "merge":
-        return L.merge(b)
-    if name == "zip_longest":
-        return L.zip_longest(b)
-    if name == "accumulate":
-        return L.accumulate(b, fn_comb)
-    if name == "cycle":
-        return L.cycle(b)
-    raise ValueError(name)
+class ModelIter:
+    """What the handle is to a synchronous stdlib tool: the model's view of the underlying iterator"""
+
+    def __init__(self, model, items):
+        self.model = model
+        self.items = items
+
+    def __iter__(self):
+        return self
+
+    def __next__(self):
+        model = self.model
+        if not model["open"]:
+            raise StopIteration
+        c = model["cursor"]
+        if c < len(self.items):
+            model["cursor"] = c + 1
+            return self.items[c]
+        model["open"] = False
+        model["exhausted"] = True  # ran off the end: a tool need not close what is exhausted
+        raise StopIteration
 
 
 def gen(ch):
@@ -83,14 +74,26 @@ def gen(ch):
     sc.cfg = cfg
     g = Gen(ch, cfg, "")
     items = g.items(ch.draw(9))
-    sc.src = g.src(items, ("agen", "aiter_cls", "aiter_noclose", "aiter_full"))
+    sc.src = g.src(items, ("agen", "aiter_cls", "aiter_noclose", "aiter_full", "aiter_throwonly"))
     sc.src.aclose_suspends = 0
     ops = []
-    for _ in range(ch.between(1, 12)):
-        kind = ch.weighted([5, 3, 2, 1, 1, 4, 1, 1])
-        # 0 next_b 1 next_u 2 close_b 3 close_iter_b 4 asend 5 tool 6 reborrow 7 drop+gc
-        if kind == 5:
-            ops.append((5, TOOLS_1TO1[ch.draw(len(TOOLS_1TO1))], ch.draw(4), ch.draw(3)))  # tool, j, then
+    for n in range(ch.between(1, 12)):
+        kind = ch.weighted([5, 3, 2, 1, 1, 4, 1, 1, 1, 2])
+        # 0 next_b 1 next_u 2 close_b 3 close_iter_b 4 asend 5 tool 6 reborrow 7 drop+gc 8 athrow 9 aggregation
+        if kind in (5, 9):
+            gt = Gen(ch, cfg, "t%d" % n)
+            gt.uid = 1000 * (n + 1)
+            if kind == 5:
+                name = TOOL_NAMES[ch.draw(len(TOOL_NAMES))]
+                spec = TOOLS[name].gen(gt)
+                if not spec.srcs:
+                    spec.srcs = [gt.src([])]
+                if name == "batched" and spec.p["n"] < 1:
+                    spec.p["n"] = 1
+                ops.append((5, spec, ch.draw(5), ch.draw(3)))  # tool spec, j, then
+            else:
+                name = AGG_NAMES[ch.draw(len(AGG_NAMES))]
+                ops.append((9, AGGS[name].gen(gt)))
         else:
             ops.append((kind,))
     sc.ops = ops
@@ -112,7 +115,7 @@ def execute(st, ctx):
     has_asend = sc.src.flavour in ("agen", "aiter_full")
     trace = []
     problems = []
-    model = {"cursor": 0, "open": True, "dead": False}
+    model = {"cursor": 0, "open": True, "closed": False, "exhausted": False}
     fn_true = make_async_fn(world, FnPlan("ftrue", "lt", 10 ** 6, "def")).obj
     fn_false = make_async_fn(world, FnPlan("ffalse", "lt", -10 ** 6, "async")).obj
     fn_comb = make_async_fn(world, FnPlan("fcomb", "ident", 0, "def")).obj
@@ -144,6 +147,7 @@ def execute(st, ctx):
             return ("item", ident(items[c]))
         if through_handle:
             model["open"] = False  # the wrapper ran off the end: nothing more comes out of it
+            model["exhausted"] = True
         return ("stop",)
 
     async def do_next(it):
@@ -157,7 +161,8 @@ def execute(st, ctx):
         b = L.borrow(underlying)
         for i, op in enumerate(sc.ops):
             kind = op[0]
-            name = ("next_b", "next_u", "close_b", "close_iter_b", "asend", "tool", "reborrow", "drop_gc")[kind]
+            name = ("next_b", "next_u", "close_b", "close_iter_b", "asend", "tool", "reborrow", "drop_gc",
+                    "athrow", "agg")[kind]
             if kind == 0:
                 got = await do_next(b)
                 exp = expect_next(True)
@@ -167,11 +172,13 @@ def execute(st, ctx):
             elif kind == 2:
                 await b.aclose()
                 model["open"] = False
+                model["closed"] = True
                 got = exp = ("closed",)
                 out.probes["closed_directly"] = 1
             elif kind == 3:
                 await b.__aiter__().aclose()
                 model["open"] = False
+                model["closed"] = True
                 got = exp = ("closed",)
                 out.probes["closed_via_iter"] = 1
             elif kind == 4:
@@ -187,65 +194,129 @@ def execute(st, ctx):
                         got = ("stop",)
                     exp = expect_next(True)
             elif kind == 5:
-                _, tname, j, then = op
+                _, spec, j, then = op
+                tname = spec.tool
                 name = "tool:" + tname
-                tool = build_tool(L, tname, b, fn_true, fn_false, fn_comb2 if tname == "accumulate" else fn_comb)
-                it = tool[0] if tname == "tee" else tool
-                took = 0
-                ended = False
+                tool = TOOLS[tname]
+                w = World(sim, own_log=True)
+                others = [make_async_source(w, p).obj for p in spec.srcs[1:]]
+                fns = [make_async_fn(w, p).obj if p is not None else None for p in spec.fns]
+                it = tool.a(L, spec, [b] + others, fns)
+                del others
+                got_items, got_end = [], None
                 for _ in range(j):
                     try:
-                        await it.__anext__()
+                        item = await it.__anext__()
                     except StopAsyncIteration:
-                        ended = True
+                        got_end = "stop"
                         break
-                    took += 1
-                started = j > 0
-                # model: the tool pulled `took` items (+ the failed pull at the end)
-                exp_took = 0
+                    except (ValueError, TypeError) as err:
+                        got_end = type(err).__name__
+                        break
+                    got_items.append(ident(item))
+                    del item
+                # model: the stdlib tool over the model's view of the handle
+                rw = World()
+                rothers = [make_ref_source(rw, p).obj for p in spec.srcs[1:]]
+                rfns = [make_ref_fn(rw, p).obj if p is not None else None for p in spec.fns]
+                exp_items, exp_end = [], None
+                rit = iter(tool.r(spec, [ModelIter(model, items)] + rothers, rfns))
                 for _ in range(j):
-                    r = expect_next(True)
-                    if r[0] == "stop":
+                    try:
+                        ritem = next(rit)
+                    except StopIteration:
+                        exp_end = "stop"
                         break
-                    exp_took += 1
-                exp_ended = exp_took < j
-                if tname == "cycle" and exp_ended and exp_took > 0:
-                    # cycle replays its buffer instead of ending: it yields j items anyway
-                    exp_took, exp_ended = j, False
-                if then == 0:  # close the tool
-                    await (tool.aclose() if tname == "tee" else it.aclose())
-                    if started or tname in CLOSES_UNSTARTED:
-                        model["open"] = False
-                        out.probes["closed_by_tool"] = 1
-                elif then == 1:  # exhaust the tool
-                    if tname == "cycle":
-                        # never ends unless empty: close it instead
+                    except (ValueError, TypeError) as err:
+                        exp_end = type(err).__name__
+                        break
+                    exp_items.append(ident(ritem))
+                started = j > 0
+                if got_end is None:
+                    if then == 0 or (then == 1 and tool.infinite):
                         await it.aclose()
-                        if started:
+                        # chain(*iterables) is a handle that owns its arguments even when never advanced;
+                        # chain.from_iterable owns only what it has fetched
+                        if started or (tname == "chain" and spec.p["form"] == 0):
                             model["open"] = False
-                    else:
+                            model["closed"] = True
+                            out.probes["closed_by_tool"] = 1
+                    elif then == 1:
                         while True:
                             try:
-                                await it.__anext__()
+                                item = await it.__anext__()
                             except StopAsyncIteration:
+                                got_end = "exhausted"
                                 break
-                        while expect_next(True)[0] != "stop":
-                            pass
+                            except (ValueError, TypeError) as err:
+                                got_end = type(err).__name__
+                                break
+                            got_items.append(ident(item))
+                            del item
+                        while exp_end is None:
+                            try:
+                                exp_items.append(ident(next(rit)))
+                            except StopIteration:
+                                exp_end = "exhausted"
+                            except (ValueError, TypeError) as err:
+                                exp_end = type(err).__name__
                         model["open"] = False
+                        model["closed"] = True
                         out.probes["closed_by_tool"] = 1
-                else:  # abandon the tool
-                    out.probes["tool_abandoned"] = 1
-                    del it, tool
-                    await settle()
-                    if started:
-                        model["open"] = False
-                        out.probes["closed_by_gc"] = 1
-                it = tool = None
-                got = ("tool", took, ended)
-                exp = ("tool", exp_took, exp_ended)
+                    else:
+                        out.probes["tool_abandoned"] = 1
+                        del it
+                        await settle()
+                        if started:
+                            model["open"] = False
+                            model["closed"] = True
+                            out.probes["closed_by_gc"] = 1
+                else:
+                    # the tool ended by itself (exhaustion or an error of its own): it closed its input
+                    model["open"] = False
+                    model["closed"] = True
+                    out.probes["closed_by_tool"] = 1
+                it = None
+                got = ("tool", tuple(got_items), got_end)
+                exp = ("tool", tuple(exp_items), exp_end)
+            elif kind == 9:
+                spec = op[1]
+                name = "agg:" + spec.tool
+                agg = AGGS[spec.tool]
+                w = World(sim, own_log=True)
+                fns = [make_async_fn(w, p).obj if p is not None else None for p in spec.fns]
+                try:
+                    got = ("value", ident(await agg.a(L, spec, [b], fns)))
+                except (ValueError, TypeError) as err:
+                    got = ("error", type(err).__name__)
+                rw = World()
+                rfns = [make_ref_fn(rw, p).obj if p is not None else None for p in spec.fns]
+                try:
+                    exp = ("value", ident(agg.r(spec, [ModelIter(model, items)], rfns)))
+                except (ValueError, TypeError) as err:
+                    exp = ("error", type(err).__name__)
+                # an aggregation releases (closes) its source before it returns
+                model["open"] = False
+                model["closed"] = True
+                out.probes["closed_by_tool"] = 1
+            elif kind == 8:
+                # athrow through a *closed* handle must not reach the underlying iterator
+                if not model["closed"] or model["exhausted"] or not hasattr(b, "athrow"):
+                    got = exp = ("skipped",)
+                else:
+                    out.probes["athrow_on_closed_handle"] = 1
+                    n_before = src.n_pulls
+                    try:
+                        await b.athrow(KeyError("thrown through the handle"))
+                    except BaseException as err:  # noqa
+                        if type(err).__name__ == "Cancel":
+                            raise
+                    got = ("athrow", src.n_pulls - n_before, sum(1 for e in sim.log if e[0] == "athrow"))
+                    exp = ("athrow", 0, 0)
             elif kind == 6:
                 b = L.borrow(underlying)
                 model["open"] = True
+                model["closed"] = model["exhausted"] = False
                 got = exp = ("borrowed",)
                 out.probes["reborrowed"] = 1
                 await settle()
@@ -254,6 +325,7 @@ def execute(st, ctx):
                 await settle()
                 b = L.borrow(underlying)
                 model["open"] = True
+                model["closed"] = model["exhausted"] = False
                 got = exp = ("dropped",)
             trace.append((name, got, exp))
             if got != exp:
@@ -269,7 +341,8 @@ def execute(st, ctx):
     run_sim(sim)
 
     def describe():
-        return {"underlying": sc.src.describe(), "ops": [list(o) for o in sc.ops],
+        return {"underlying": sc.src.describe(),
+                "ops": [[o[0], o[1].describe()] + list(o[2:]) if o[0] in (5, 9) else list(o) for o in sc.ops],
                 "trace": [repr(t) for t in trace], "model": dict(model)}
 
     if sim.deadlock:
@@ -282,7 +355,8 @@ def execute(st, ctx):
             out.violate("C07.history_did_not_finish", (type(hist.error).__name__,), dict(describe(), error=repr(hist.error)))
     closed_once = any(out.probes.get(k) for k in ("closed_directly", "closed_via_iter", "closed_by_tool", "closed_by_gc"))
     out.nontrivial = bool(closed_once and out.probes.get("underlying_used_after_close"))
-    out.shape = (sc.src.flavour, len(items), tuple(sc.ops))
+    out.shape = (sc.src.flavour, len(items),
+                 tuple((o[0], o[1].shape_key()) + tuple(o[2:]) if o[0] in (5, 9) else o for o in sc.ops))
     if out.probes.get("closed_directly") or out.probes.get("closed_via_iter"):
         out.faults["handle_closed"] = 1
     if out.probes.get("tool_abandoned"):
